@@ -182,6 +182,10 @@ pub fn run(case: &Value, ctx: &Ctx) -> Outcome {
                 "text_huge_value" => b"#SHAPE=<3>\n1e999 -1e999 1e-999\n".to_vec(),
                 "text_nan_values" => b"#SHAPE=<3>\nNaN inf -inf\n".to_vec(),
                 "npy_shape_overflow" => npy_head("{'descr': '<f8', 'fortran_order': False, 'shape': (4294967296, 4294967296, 4294967296), }"),
+                // numpy writes 'shape': () for a 0-dimensional (scalar) array, with exactly one value
+                "npy_shape_scalar" => crate::fam_npy::assemble(1, &format!("{:<117}\n", "{'descr': '<f8', 'fortran_order': False, 'shape': (), }"), &3.5f64.to_le_bytes()),
+                "npy_shape_scalar_novalue" => crate::fam_npy::assemble(1, &format!("{:<117}\n", "{'descr': '<f8', 'fortran_order': False, 'shape': (), }"), &[]),
+                "text_shape_scalar_like" => b"#SHAPE=<1>\n3.5\n".to_vec(),
                 "npy_shape_zero" => crate::fam_npy::assemble(1, &format!("{:<117}\n", "{'descr': '<f8', 'fortran_order': False, 'shape': (0,), }"), &[]),
                 "npy_header_len_huge" => { let mut b = b"\x93NUMPY\x02\x00".to_vec(); b.extend_from_slice(&0xffff_fff0u32.to_le_bytes()); b.extend_from_slice(b"{'descr': '<f8'}"); b }
                 "npy_v9" => { let mut b = npy_head("{'descr': '<f8', 'fortran_order': False, 'shape': (2,), }"); b[6] = 9; b }
@@ -191,7 +195,7 @@ pub fn run(case: &Value, ctx: &Ctx) -> Outcome {
                 _ => b"\xef\xbb\xbf#SHAPE=<2>\n1 2\n".to_vec(),
             };
             let tool = sc["tool"].as_str().unwrap();
-            let args: Vec<&str> = if tool == "stat" { vec!["stat", "-s", "sum"] } else { vec![tool] };
+            let args: Vec<&str> = if tool == "stat" { vec!["stat", "-s", "sum"] } else if let Some(st) = tool.strip_prefix("stat-") { vec!["stat", "-s", st] } else { vec![tool] };
             let r = cli::sfs(ctx, &args, Some(&bytes));
             verdict(&mut out, format!("input/{name}"), &r, expect, sc.clone());
         }
